@@ -11,7 +11,7 @@ import (
 // C20 — XorBytes equals bytewise XOR over the common prefix, for all lengths,
 // alignments and the aliasing patterns dst==a, dst==b.  Full enumeration.
 
-const xorArena = 128
+const xorArena = 192
 
 type xorImpl struct {
 	name string
@@ -28,9 +28,11 @@ func runXor(tier string, shard, shards int, rep *SeqReport) {
 	if xorold.Present {
 		impls = append(impls, xorImpl{"old", xorold.XorBytes})
 	}
-	maxLen := 40
+	// lengths beyond 64: implementations switch to word / block loops with a tail
+	maxLen := 72
 	offs := []int{0, 1, 3, 7}
 	if tier == "thorough" {
+		maxLen = 136
 		offs = []int{0, 1, 2, 3, 4, 5, 6, 7}
 	}
 	A, B, D := alignedArena(), alignedArena(), alignedArena()
@@ -177,7 +179,7 @@ func runXor(tier string, shard, shards int, rep *SeqReport) {
 
 func init() {
 	register(&Check{ID: "C20", Seq: runXor,
-		Rule: "full enumeration: len(a), len(b) in 0..40 independently x start offsets mod 8 of a, b, dst (quick {0,1,3,7}, thorough 0..7) x aliasing {none, dst==a, dst==b} x dst exactly n or n+3 long x 3 content patterns, plus all 256x256 byte values for n<=2; on the implementation this toolchain builds (xor_generic.go) and on xor_old.go compiled with its build constraint lifted; every byte of the three guarded arenas is compared",
+		Rule: "full enumeration: len(a), len(b) in 0..72 (thorough 0..136) independently x start offsets mod 8 of a, b, dst (quick {0,1,3,7}, thorough 0..7) x aliasing {none, dst==a, dst==b} x dst exactly n or n+3 long x 3 content patterns, plus all 256x256 byte values for n<=2; on the implementation this toolchain builds (xor_generic.go) and on xor_old.go compiled with its build constraint lifted; every byte of the three guarded arenas is compared",
 		Assumptions: []string{"xor_arm.go/.s cannot execute on amd64 and no emulator is installed: the ARM assembly is not covered",
 			"contents come from 3 position-dependent patterns (XOR is bitwise-independent) plus all byte pairs for n<=2"}})
 }
